@@ -125,13 +125,14 @@ def gen_stmt(rng):
     return lines
 
 
-def dir_tail(rng):
-    """Optional C comment at the end of a directive line (closed on the line)."""
+def dir_tail(rng, block_only=True):
+    """Optional C comment at the end of a directive line (closed on the line).
+    block_only: no // comments (gfortran's traditional-mode cpp does not know them: // is concatenation)."""
     r = rng.random()
     if r < 0.75:
         return ""
-    if r < 0.9:
-        return rng.choice([" /* F0 */", " /* a * b / c */", "  /**/", " /* don't */ "])
+    if r < 0.9 or block_only:
+        return rng.choice([" /* F0 */", " /* a * b / c */", "  /**/", " /* dont */ ", " /* x // y */"])
     return rng.choice([" // note", " // a /* b", " //"])
 
 
@@ -186,15 +187,15 @@ def gen_block(rng, depth, budget, col1=False):
         elif r < 0.82:
             out.append("#undef " + rng.choice(FLAGS + VALS))
         elif depth < 3:
-            out.append(gen_cond(rng) + dir_tail(rng))
+            out.append(gen_cond(rng) + dir_tail(rng, col1))
             out += gen_block(rng, depth + 1, budget // 2, col1)
             for _ in range(rng.choice([0, 0, 0, 1, 2])):
                 out.append(gen_elif(rng))
                 out += gen_block(rng, depth + 1, budget // 3, col1)
             if rng.random() < 0.6:
-                out.append("#else" + dir_tail(rng))
+                out.append("#else" + dir_tail(rng, col1))
                 out += gen_block(rng, depth + 1, budget // 3, col1)
-            out.append(rng.choice(["#endif", "#endif", "# endif"] if col1 else ["#endif", "#endif", "  #endif", "# endif"]) + dir_tail(rng))
+            out.append(rng.choice(["#endif", "#endif", "# endif"] if col1 else ["#endif", "#endif", "  #endif", "# endif"]) + dir_tail(rng, col1))
         else:
             out += gen_stmt(rng)
     return out
@@ -275,3 +276,121 @@ def features(text):
     if re.search(r"^[ \t]*&", text, re.M):
         f.add("leading_amp")
     return f
+
+
+# ---------------------------------------------------------------- compilable programs (S-versus-compiler validation)
+def _vlit(rng):
+    q = rng.choice("'\"")
+    other = '"' if q == "'" else "'"
+    body = ""
+    for _ in range(rng.randint(0, 3)):
+        r = rng.random()
+        if r < 0.15:
+            body += q + q
+        elif r < 0.25:
+            body += other
+        else:
+            body += rng.choice(["a", "b c", "!", "&", "//", "#", "$", "!$omp", "& !", ";", "( ,", "& "])
+    return q, body
+
+
+def gen_valid_stmt(rng):
+    """print *, item {, item} spread over 1-4 physical lines; returns the physical lines."""
+    nitems = rng.randint(1, 5)
+    lines = []
+    cur = indent(rng) + rng.choice(["print *, ", "write(*,*) "])
+    first_on_line = True
+    for i in range(nitems):
+        last = (i == nitems - 1)
+        r = rng.random()
+        if r < 0.4:
+            item = T
+        else:
+            q, body = _vlit(rng)
+            item = q + body + q
+            if rng.random() < 0.3:
+                q2, b2 = _vlit(rng)
+                item += rng.choice(["//", " // "]) + q2 + b2 + q2
+        split_lit = (not last) is False and False
+        cur += item
+        if T not in cur:
+            cur += rng.choice([", ", " ,"]) + T if last else ""
+        if last:
+            break
+        cur += rng.choice([", ", ",", " , "])
+        if rng.random() < 0.45:
+            # break the line here
+            if T not in cur:
+                cur += T + ", "
+            cur += rng.choice(["&", " &", "&  "])
+            if rng.random() < 0.3:
+                cur += " " + gen_comment(rng)
+            lines.append(cur)
+            while rng.random() < 0.3:
+                r2 = rng.random()
+                if r2 < 0.4:
+                    lines.append(indent(rng) + gen_comment(rng))
+                elif r2 < 0.6:
+                    lines.append(rng.choice(["", "  "]))
+                elif r2 < 0.8:
+                    lines.append(indent(rng) + gen_sentinel(rng).replace(T, "x"))
+                else:
+                    m = rng.choice(FLAGS)
+                    lines.append(f"#ifdef {m}" + dir_tail(rng))
+                    lines.append(indent(rng) + "& " + T + ", &")
+                    lines.append("#endif")
+                    break
+            cur = indent(rng) + rng.choice(["", "&", "& "])
+    if T not in cur:
+        cur += ", " + T
+    if rng.random() < 0.3:
+        cur += " " + gen_comment(rng)
+    lines.append(cur)
+    return lines
+
+
+def gen_valid_split_literal(rng):
+    """s = 'abc& / &def' with optional comment lines in between."""
+    q = rng.choice("'\"")
+    a = rng.choice(["ab", "a!b", "x & y", "", "!$omp", "//"])
+    b = rng.choice(["cd", "!", " &z", "", q + q])
+    lines = [indent(rng) + "s = " + q + a + "&"]
+    while rng.random() < 0.3:
+        lines.append(indent(rng) + gen_comment(rng))
+    lines.append(indent(rng) + "&" + b + T + q + rng.choice(["", " // 'z'", " ! c"]))
+    return lines
+
+
+def gen_valid_block(rng, depth):
+    out = []
+    for _ in range(rng.randint(1, 4) if depth else rng.randint(2, 6)):
+        r = rng.random()
+        if r < 0.45:
+            out += gen_valid_stmt(rng)
+        elif r < 0.55:
+            out += gen_valid_split_literal(rng)
+        elif r < 0.65:
+            out.append(indent(rng) + gen_comment(rng))
+        elif r < 0.7:
+            out.append("")
+        elif r < 0.78:
+            out.append(indent(rng) + gen_sentinel(rng).replace(T, "x"))
+        elif r < 0.84:
+            m = rng.choice(VALS)
+            out.append(f"#undef {m}")
+            out.append(f"#define {m} {rng.choice([0, 1, 2])}")
+        elif depth < 2:
+            out.append(gen_cond(rng) + dir_tail(rng))
+            out += gen_valid_block(rng, depth + 1)
+            if rng.random() < 0.5:
+                out.append("#else" + dir_tail(rng))
+                out += gen_valid_block(rng, depth + 1)
+            out.append("#endif" + dir_tail(rng))
+        else:
+            out += gen_valid_stmt(rng)
+    return out
+
+
+def gen_valid_program(rng):
+    head = ["program p", "implicit integer (t)", "character(len=200) :: s"]
+    return head + gen_valid_block(rng, 0) + ["end program p"]
